@@ -1,6 +1,7 @@
 import MdwModel.Driver.C16
 import MdwModel.Driver.C09
 import MdwModel.Driver.C13
+import MdwModel.Driver.Stack
 import MdwModel.Model.Records
 import Std.Data.HashMap
 open Mdw.Drv
@@ -19,6 +20,13 @@ def dispatch (prop : String) (kv : List (String × String)) : Res :=
   | "C16" => C16.run kv
   | "C09" => C09.run kv
   | "C13" => C13.run kv
+  | "C12" => Stack.run12 kv
+  | "C06" => match get kv "kind" with
+    | some "stackinfo" => Stack.run06info kv
+    | _ => .bad "C06 kind"
+  | "C20" => match get kv "kind" with
+    | some "scan" => Stack.run20scan kv
+    | _ => .bad "C20 kind"
   | "C10" => C09.run10 kv
   | "SIZES" =>
     match (get kv "sizes").bind natList with
